@@ -1,2 +1,186 @@
--- line-protocol driver stub (Lts); replaced when the model exists
-def main : IO Unit := IO.println "stub"
+import QbiceVerif.Model.EngineLts
+import Std.Data.HashMap
+
+/-!
+Line-protocol driver over the C02 models (`Model/EngineLts.lean`).
+
+## `ct …` — computing-table traces (hook events of the real engine, in emission order)
+
+The hooks carry a query id and an instance id but no task identity, so the events are replayed
+through `CT.kStep`, the shared state of the `CT` model restricted to one key.  An event that is not
+enabled is answered `REJECT …` (a correspondence failure); the state is then left unchanged.
+
+    ct begin               -> ok        fresh engine
+    ct epoch               -> ok        an input session was committed while no query was alive
+    ct miss|hit|none <k>   -> ok
+    ct vacant|reg|done <k> <g>  -> ok
+    ct publish|woken <k>   -> ok
+    ct end                 -> ok
+
+## `ts …` — the tiered set
+
+    ts new <T> asis|fixed  -> ok
+    ts ins|rem <t> <x>     -> true|false      whole operation run to completion
+    ts len <t>             -> <n>
+    ts iter <t>            -> sorted elements, `-` when empty
+    ts ev <t> ins <x>      -> ret true|false | pending
+    ts ev <t> publish|upgrade -> ret true|false
+    ts ev <t> rem <x>      -> ret true|false
+
+Unknown / malformed line -> `bad-op`.
+-/
+
+open QbiceVerif.Lts
+
+structure Drv where
+  keys : Std.HashMap Nat CT.KeyState := {}
+  ts : Option TS.State := none
+  rejects : Nat := 0
+  ctEvents : Nat := 0
+  tsOps : Nat := 0
+
+def insertSorted (x : Nat) : List Nat → List Nat
+  | [] => [x]
+  | y :: ys => if x ≤ y then x :: y :: ys else y :: insertSorted x ys
+
+def sortNat (l : List Nat) : List Nat := l.foldl (fun acc x => insertSorted x acc) []
+
+def showRet : TS.Ret → String
+  | .bool b => if b then "true" else "false"
+  | .nat n => toString n
+  | .list l => if l.isEmpty then "-" else " ".intercalate ((sortNat l).map toString)
+
+def showKs (ks : CT.KeyState) : String :=
+  s!"verified={ks.verified} entry={ks.entry} unnotified={ks.unnotified} pool={ks.pool}"
+
+def ctKey (d : Drv) (k : Nat) (ev : CT.KEv) (name : String) : Drv × String :=
+  let ks := d.keys.getD k {}
+  match CT.kStep ks ev with
+  | some ks' => ({ d with keys := d.keys.insert k ks', ctEvents := d.ctEvents + 1 }, "ok")
+  | none => ({ d with rejects := d.rejects + 1, ctEvents := d.ctEvents + 1 }, s!"REJECT {name} key={k} {showKs ks}")
+
+def ctAll (d : Drv) (ev : CT.KEv) (name : String) : Drv × String :=
+  let r := d.keys.fold (init := (({} : Std.HashMap Nat CT.KeyState), (none : Option String))) fun (acc, bad) k ks =>
+    match CT.kStep ks ev with
+    | some ks' => (acc.insert k ks', bad)
+    | none => (acc.insert k ks, match bad with | none => some s!"REJECT {name} key={k} {showKs ks}" | b => b)
+  match r.2 with
+  | none => ({ d with keys := r.1 }, "ok")
+  | some m => ({ d with rejects := d.rejects + 1 }, m)
+
+/-- run a whole operation of thread `t` to completion -/
+def tsWhole (s : TS.State) (t : Nat) (ev : TS.Ev) : Option (TS.State × TS.Ret) :=
+  match TS.step s ev with
+  | none => none
+  | some (s', some r) => some (s', r)
+  | some (s', none) =>
+    match s'.pc t with
+    | .publish _ _ _ =>
+      match TS.step s' (.publish t) with
+      | some (s'', some r) => some (s'', r)
+      | _ => none
+    | .upgrade _ =>
+      match TS.step s' (.upgrade t) with
+      | some (s'', some r) => some (s'', r)
+      | _ => none
+    | _ => none
+
+def tsEv (d : Drv) (s : TS.State) (ev : TS.Ev) : Drv × String :=
+  match TS.step s ev with
+  | none => ({ d with rejects := d.rejects + 1 }, "REJECT not-enabled")
+  | some (s', some r) => ({ d with ts := some s', tsOps := d.tsOps + 1 }, s!"ret {showRet r}")
+  | some (s', none) => ({ d with ts := some s', tsOps := d.tsOps + 1 }, "pending")
+
+def handle (d : Drv) (line : String) : Drv × String :=
+  let toks := (line.trimAscii.toString.splitOn " ").filter (· ≠ "")
+  match toks with
+  | ["ct", "begin"] => ({ d with keys := {} }, "ok")
+  | ["ct", "epoch"] => ctAll d .epoch "epoch"
+  | ["ct", "end"] => ctAll d .end_ "end"
+  | ["ct", ev, k] =>
+    match k.toNat? with
+    | none => (d, "bad-op")
+    | some k =>
+      match ev with
+      | "miss" => ctKey d k .miss ev
+      | "hit" => ctKey d k .hit ev
+      | "none" => ctKey d k .none_ ev
+      | "publish" => ctKey d k .publish ev
+      | "woken" => ctKey d k .woken ev
+      | _ => (d, "bad-op")
+  | ["ct", ev, k, g] =>
+    match k.toNat?, g.toNat? with
+    | some k, some g =>
+      match ev with
+      | "vacant" => ctKey d k (.vacant g) ev
+      | "reg" => ctKey d k (.reg g) ev
+      | "done" => ctKey d k (.done_ g) ev
+      | _ => (d, "bad-op")
+    | _, _ => (d, "bad-op")
+  | ["ts", "new", t, v] =>
+    match t.toNat?, v with
+    | some t, "asis" => ({ d with ts := some (TS.init t false) }, "ok")
+    | some t, "fixed" => ({ d with ts := some (TS.init t true) }, "ok")
+    | _, _ => (d, "bad-op")
+  | "ts" :: rest =>
+    match d.ts with
+    | none => (d, "bad-op")
+    | some s =>
+      let whole (t : Nat) (ev : TS.Ev) : Drv × String :=
+        match tsWhole s t ev with
+        | some (s', r) => ({ d with ts := some s', tsOps := d.tsOps + 1 }, showRet r)
+        | none => ({ d with rejects := d.rejects + 1 }, "REJECT not-enabled")
+      match rest with
+      | ["ins", t, x] =>
+        match t.toNat?, x.toNat? with
+        | some t, some x => whole t (.ins t x)
+        | _, _ => (d, "bad-op")
+      | ["rem", t, x] =>
+        match t.toNat?, x.toNat? with
+        | some t, some x => whole t (.rem t x)
+        | _, _ => (d, "bad-op")
+      | ["len", t] =>
+        match t.toNat? with
+        | some t => whole t (.len t)
+        | none => (d, "bad-op")
+      | ["iter", t] =>
+        match t.toNat? with
+        | some t =>
+          match TS.step s (.iterBegin t) with
+          | some (s1, some r) =>
+            match TS.step s1 (.iterEnd t) with
+            | some (s2, _) => ({ d with ts := some s2, tsOps := d.tsOps + 1 }, showRet r)
+            | none => ({ d with rejects := d.rejects + 1 }, "REJECT not-enabled")
+          | _ => ({ d with rejects := d.rejects + 1 }, "REJECT not-enabled")
+        | none => (d, "bad-op")
+      | ["ev", t, "ins", x] =>
+        match t.toNat?, x.toNat? with
+        | some t, some x => tsEv d s (.ins t x)
+        | _, _ => (d, "bad-op")
+      | ["ev", t, "rem", x] =>
+        match t.toNat?, x.toNat? with
+        | some t, some x => tsEv d s (.rem t x)
+        | _, _ => (d, "bad-op")
+      | ["ev", t, "publish"] =>
+        match t.toNat? with
+        | some t => tsEv d s (.publish t)
+        | none => (d, "bad-op")
+      | ["ev", t, "upgrade"] =>
+        match t.toNat? with
+        | some t => tsEv d s (.upgrade t)
+        | none => (d, "bad-op")
+      | _ => (d, "bad-op")
+  | _ => (d, "bad-op")
+
+partial def loop (h : IO.FS.Stream) (out : IO.FS.Stream) (d : Drv) : IO Drv := do
+  let line ← h.getLine
+  if line.isEmpty then return d
+  let (d', o) := handle d line
+  out.putStrLn o
+  loop h out d'
+
+def main : IO Unit := do
+  let stdin ← IO.getStdin
+  let stdout ← IO.getStdout
+  let d ← loop stdin stdout {}
+  IO.eprintln s!"ct_events={d.ctEvents} ts_ops={d.tsOps} rejects={d.rejects}"
